@@ -88,12 +88,33 @@ class Node:
     def __str__(self):
         if isinstance(self.data, str):
             return self.data
-        return '(' + ' '.join(map(str, self.data)) + ')'
+        return self.__render(False)
 
     def __repr__(self):
         if isinstance(self.data, str):
             return f'"{self.data}"'
-        return f'({self.id} ' + ' '.join(map(repr, self.data)) + ')'
+        return self.__render(True)
+
+    def __render(self, with_ids):
+        """Render this node without recursion (inputs may be nested deeper
+        than the interpreter's recursion limit)."""
+        res = []
+        visit = [self]
+        while visit:
+            expr = visit.pop()
+            if isinstance(expr, str):
+                res.append(expr)
+            elif isinstance(expr.data, str):
+                res.append(f'"{expr.data}"' if with_ids else expr.data)
+            else:
+                res.append(f'({expr.id} ' if with_ids else '(')
+                visit.append(')')
+                for child in reversed(expr.data):
+                    visit.append(child)
+                    visit.append(' ')
+                if expr.data:
+                    visit.pop()
+        return ''.join(res)
 
     def __len__(self):
         if self.is_leaf():
